@@ -256,7 +256,19 @@ fn source_roundtrip(rep: &Report, n: usize, core: bool, seed: u64) {
                 stack_form(which - MOV_FORMS - XCHG_FORMS, &mut rng, &wl)
             };
             let mut sp = if it % 2 == 0 { Spell::plain() } else { Spell::random_syn(rng.fork(it as u64)) };
-            let text = format!("{}start:\n{}\n", data_src, ins.src(&mut sp));
+            let mut text = format!("{}start:\n{}\n", data_src, ins.src(&mut sp));
+            // every fourth time the memory / label operand reaches the instruction as a macro argument (the assembler
+            // re-formats an argument before it substitutes it)
+            if it % 4 == 3 {
+                if let Some(l) = crate::gen::first_mem_operand(&ins) {
+                    let full = ins.src(&mut Spell::plain());
+                    let opnd = l.src(&mut Spell::plain());
+                    if full.matches(opnd.as_str()).count() == 1 {
+                        text = format!("{}macro viaarg(zzp) -> {} <-\nstart:\nviaarg({})\n", data_src, full.replacen(opnd.as_str(), "zzp", 1), opnd);
+                        *loc.counters.entry("source forms whose memory operand is passed as a macro argument").or_insert(0) += 1;
+                    }
+                }
+            }
             let a = match asm::assemble(&text) {
                 Ok(a) => a,
                 Err(_) => {
